@@ -53,6 +53,7 @@ def run(ctx):
     _r11_pointers_only_from_the_name_writer(ctx)
     _r12_character_strings_as_read(ctx)
     _r13_edns_fields_from_one_record(ctx)
+    _r14_encoder_preconditions(ctx)
     # a record taken back out of the message leaves its names in the compression tree: unless the section ends there, later names
     # are compressed against octets that are gone.  The loop shape is C04's.
     ctx.include("C04", rules=("R3", "R2"))
@@ -85,6 +86,41 @@ def _r11_pointers_only_from_the_name_writer(ctx):
                       "a compression pointer is composed from %s: its target must be the offset a suffix-tree node recorded (node.data)" % show(tgt)[:100])
     if ctx.config in ("default", "dns"):
         ctx.floor("R11", "places that compose a compression pointer", n, 2)
+
+
+ENCODER_ASSERTIONS = 12      # counted on the reviewed tree: push_label 2, push_prefix 4, push_str 1, push_rr 3, serialise_with_size 2
+
+
+def _r14_encoder_preconditions(ctx):
+    """R14 the encoder accepts what the decoder produces: (a) it asserts no more about a message than it did when its assertions were
+    reviewed against the decoder's guarantees (a new `assert!` on a name, a string or a count is a new way for a decoded message to
+    fail to encode); (b) every non-root name is written by the suffix-tree walk (`push_prefix`), the only writer of labels that is
+    called from `push_compressed_domain` — a second way of writing a name (uncompressed, past some offset) changes the size of what
+    is written and with it what fits."""
+    P = ctx.P
+    spans = set()
+    n = 0
+    for b in P.bodies.values():
+        root = b.id.split("::{")[0]
+        if "::test" in b.id or not (root.startswith("erbium::dns::dnspkt::push_") or root.endswith("DNSPkt::serialise_with_size") or root.endswith("dnspkt::make_edns_opt")):
+            continue
+        n += 1
+        ctx.saw(b)
+        for bb, tm in b.calls():
+            nme = callee_name(tm) or ""
+            if nme.startswith("core::panicking::panic") or nme.startswith("core::panicking::assert_failed") or "begin_panic" in nme or nme.startswith("core::panicking::unreachable"):
+                spans.add(tm["sp"])
+    if ctx.config in ("default", "dns"):
+        ctx.floor("R14", "encoder functions", n, 6)
+        ctx.check(len(spans) <= ENCODER_ASSERTIONS, "R14", "encoder-asserts-no-more-than-reviewed", "crates/erbium-core/src/dns/dnspkt.rs",
+                  "the DNS encoder has %d explicit assertion / panic sites, %d were reviewed against what the decoder guarantees" % (len(spans), ENCODER_ASSERTIONS))
+    for b in P.bodies.values():
+        if b.id.endswith("dnspkt::push_compressed_domain"):
+            fam = P.family(b.id)
+            direct = [P.rel(tm["sp"]) for x in fam for bb, tm in x.calls() if (callee_name(tm) or "").endswith("dnspkt::push_label")]
+            walks = [bb for x in fam for bb, tm in x.calls() if (callee_name(tm) or "").endswith("dnspkt::push_prefix")]
+            ctx.check(bool(walks) and not direct, "R14", "names-are-written-by-the-suffix-tree-walk", ctx.where(b),
+                      "push_compressed_domain writes labels itself (%s) or never calls push_prefix" % (direct or "-"))
 
 
 def _r13_edns_fields_from_one_record(ctx):
